@@ -6,6 +6,7 @@ use std::time::{Duration, Instant};
 mod analyze;
 mod corpus;
 mod iter;
+mod quote;
 mod search;
 mod state_ops;
 
@@ -32,6 +33,7 @@ fn family(name: &str) -> Option<Box<dyn Family>> {
         "state_ops" => Some(Box::new(state_ops::StateOps)),
         "iter" => Some(Box::new(iter::Iter)),
         "analyze" => Some(Box::new(analyze::Analyze)),
+        "quote" => Some(Box::new(quote::Quote)),
         "search" => Some(Box::new(search::Search)),
         _ => None,
     }
